@@ -2,10 +2,12 @@
 from propcommon import COMMON_MODELLED
 PROP = dict(
         gotest="TestC16",
+        translator="arithC16",
+        extra_props=["ArithTieC16"],
         extra_gotests=[("TestZdec", "Zdec")],
         model="coq/Models/Oracle.v (exact, byte-string keys: PriceKey, sorted KV store, reverse prefix iteration, GetAssetPrice, "
               "GetAssetPriceFromDenom, EndBlock expiry in uint64 arithmetic, feeder registry, FeedPrice/FeedMultiplePrices, asset infos, params)",
-        coq_deps=["Base/", "Models/Oracle.v", "Proofs/OracleProofs.v", "Run/OracleRun.v", "Props/C16.v"],
+        coq_deps=["Base/", "Models/Oracle.v", "Proofs/OracleProofs.v", "Run/OracleRun.v", "Props/C16.v", "Generated/ArithC16.v", "Proofs/ArithTieTac.v", "Proofs/ArithTieC16.v", "Props/ArithTieC16.v"],
         rule="histories of 35-65 ops (feed / feed_multi from active, inactive, unregistered and governance senders, feeder registry "
              "messages, asset infos, governance changes of PriceExpiryTime/LifeTimeInBlocks incl. 0 and values that wrap uint64, blocks "
              "with time gaps 1..7 and e-1, e, e+1, e/2 around the expiry) on a fresh real app each; 60% over an alphabet of assets/sources "
@@ -13,7 +15,11 @@ PROP = dict(
              "prices per decade 1..1e40 raw, zero, negative, invalid asset/source; after EVERY step GetAssetPrice of every name and "
              "GetAssetPriceFromDenom of every denom are compared with the Coq model (exact) and with a reference map kept by the harness; "
              "distinct = distinct (op,result) sequence; non-trivial = at least one accepted feed",
-        trusted_base=["the price store is modelled as its own sorted byte-keyed list; asset infos, feeders and params (exact-key Get/Set under the "
+        trusted_base=["tools/gotrans arith (Go AST + go/types -> Gallina over Base/Zdec.v, Base/U64.v): the method table of coq/Generated/ARITH_README.md and Go's uint64 "
+                      "semantics as written in Base/U64.v (+ modulo 2^64, uint64(int64) modulo 2^64); ties the two EndBlock expiry conditions, GetAssetPriceFromDenom and the "
+                      "body of Pow10's loop to expired_time / expired_height / price_from_denom / pow10_dec; that the loop runs int(decimal) times, and what GetParams / "
+                      "GetAssetInfo / GetAssetPrice return, is covered by the correspondence run only",
+                      "the price store is modelled as its own sorted byte-keyed list; asset infos, feeders and params (exact-key Get/Set under the "
                       "disjoint prefixes 'AssetInfo/value/', 0x02, 0x01 of the same KV store) are modelled as association lists",
                       "price writers outside the two feed messages are not executed: Band IBC receive (x/oracle/oracle.go; no channel offline), "
                       "InitGenesis, MigrateAllLegacyPrices (upgrade only); the harness scans the source tree on every run and reports any "
